@@ -67,6 +67,21 @@ PROPS = {
                              "real-time constants (5 s tick) are waited for, not changed"],
         assumptions=["the tick is modelled as an explicit event; the harness produces it by staying idle for 5 s"],
     ),
+    "C07": dict(
+        modules=["HT.Props.C07"],
+        streams=["c07rot"],
+        rule="rotating file: every sequence of <= 2 (quick) / 3 (thorough) writes over 24 boundary batch shapes around "
+             "max size 1024 through the real OpenRotateFile/Write in a temp dir and through the Lean model; "
+             "pre-existing files at/beyond the limit; seeded longer sequences (<= 8 writes, sizes 1024/4096/1 MiB, "
+             "several rotations within one second, external removal); raw unaligned writes; end-to-end New/Send with "
+             "the real 1 s flush; unwritable destination; oracle reads every file back; non-trivial = at least one "
+             "rotation happened; distinct = distinct case line; 1 MiB cases are implementation+oracle only",
+        trusted=COMMON_TB + ["modelled, not verified: the OS file system (rename, append, stat), time.Now, "
+                             "encoding/json producing one newline-terminated line per event, the writer goroutine's "
+                             "select loop (batching)"],
+        assumptions=["a batch handed to Write is a concatenation of newline-terminated lines without interior newlines",
+                     "'sending never blocks forever' is checked by the correspondence run only"],
+    ),
 }
 
 HOOK_COMMITS = ["0596fc6", "c47bf54"]
@@ -75,6 +90,17 @@ NOT_BUILT = "check not built yet in this round (design in DESIGN.md section 7); 
 NOT_APPLICABLE = {("C%02d" % i): NOT_BUILT for i in range(1, 21)}
 
 MANIFEST_TEXT = {
+    "C07": dict(
+        text="Lean theorems over the rotating-file model: after any history of writes the rotated files followed by the "
+             "active file contain exactly the bytes written in order (nothing lost, duplicated or altered); if whole lines "
+             "are written every file consists of whole lines; a file exceeds the maximum only as a single line; the loop's "
+             "measure shows termination; a rotated name is never one that exists. Tied to rotatefile.go by differential "
+             "runs on a real temp directory with an independent read-back oracle.",
+        design_ref="DESIGN.md section 7, C07",
+        note="Partial: 'sending never blocks forever' and the 1 s batching loop live in the writer goroutine; they are "
+             "exercised end-to-end (incl. unwritable destination) but not proved.",
+        technique="Lean 4 proof (fold/fuel induction, invariants) + differential correspondence on a real file system",
+    ),
     "C20": dict(
         text="Lean theorems: Each visits exactly the items present at its start once each whatever the callback does; add "
              "keeps the set unique and is idempotent; for every knock history there is exactly one group per "
